@@ -546,6 +546,7 @@ func ruleC17d(c *Ctx) {
 		c.check(same && len(a.Accept) > 0, p.fname(cam), "route acceptance agrees with the router", p.ipos(a.RouteMatch),
 			"both accept iff the route expression matches and the final group is one of {"+quoteAll(a.Accept)+"}",
 			"computeAllowedMethods accepts on final group in {"+quoteAll(a.Accept)+"} but RouterJSR311.selectRoutes on {"+quoteAll(b.Accept)+"}: the OPTIONS answer lists methods the router would answer 404, or misses routable ones")
+		c.relate(p.fname(sel))
 	}
 	// service choice: routers pass one best service on; computeAllowedMethods must not accumulate over all
 	if a.RouteMatch != nil {
